@@ -40,32 +40,33 @@ def search(ctx):
                     case['hi'] = 0.5 * math.sqrt((case['M'] + 0.5) / case['S'])
                     cases.append((no, ch, s_, case))
         for k, (no, ch, s, case) in enumerate(cases):
-            mod = tools if k % 2 == 0 else laue
-            np.random.seed(ctx.rng.randrange(2 ** 31))
             exp = HR.expected_all(s, case['cell'], case['lo'], case['hi'])
-            why, cls = None, None
-            try:
-                got = HC.rows_of(mod.genhkl_all(case['cell'], case['lo'], case['hi'], sgno=no, cell_choice=ch))
-                gs = set(got)
-                missing, extra, dups = exp - gs, gs - exp, len(got) - len(gs)
-                if missing or extra or dups:
-                    cls = classify(s, case, missing, extra, dups)
-                    why = 'genhkl_all: %d missing, %d extra, %d repeated (e.g. missing %r extra %r)' % (
-                        len(missing), len(extra), dups, sorted(missing)[:2], sorted(extra)[:2])
-                elif k % 7 == 0:
-                    np.random.seed(12345)
-                    g2 = set(HC.rows_of(mod.genhkl_all(case['cell'], case['lo'], case['hi'], sgname=s.name)))
-                    if g2 != gs:
-                        why, cls = 'genhkl_all differs between RNG states / by name vs by number', 'rng'
-            except Exception as e:
-                why, cls = 'genhkl_all raised %s: %s' % (type(e).__name__, e), 'exc'
-            ctx.count(('all', no, ch, k), hist='search:%s:%s%s' % (s.crystal_system, 'oblique' if HC.oblique(case) else 'orthogonal metric', (':' + case['kind']) if case.get('kind') else ''),
-                      sample={'sgno': no, 'cell_choice': ch, 'cell': case['cell'], 'sintlmin': case['lo'], 'sintlmax': case['hi'], 'expected': len(exp)} if no == 62 else None)
-            if why and (cls, s.crystal_system if cls == 'F6' else no) not in seen:
-                seen.add((cls, s.crystal_system if cls == 'F6' else no))
-                fails.append({'sgno': no, 'cell_choice': ch, 'name': s.name, 'cell': case['cell'], 'sintlmin': case['lo'], 'sintlmax': case['hi'],
-                              'module': mod.__name__, 'class': cls, 'what': why, 'replay': '%s.genhkl_all(%r, %r, %r, sgno=%d, cell_choice=%r): %s' % (
-                                  mod.__name__, case['cell'], case['lo'], case['hi'], no, ch, why)})
+            for mod, (form, kw) in HC.plan(k, s, no, ch, case, tools, laue):
+                np.random.seed(ctx.rng.randrange(2 ** 31))
+                why, cls = None, None
+                try:
+                    got = HC.rows_of(mod.genhkl_all(case['cell'], case['lo'], case['hi'], **kw))
+                    gs = set(got)
+                    missing, extra, dups = exp - gs, gs - exp, len(got) - len(gs)
+                    if missing or extra or dups:
+                        cls = classify(s, case, missing, extra, dups)
+                        why = 'genhkl_all: %d missing, %d extra, %d repeated (e.g. missing %r extra %r)' % (
+                            len(missing), len(extra), dups, sorted(missing)[:2], sorted(extra)[:2])
+                    elif k % 7 == 0:
+                        np.random.seed(12345)
+                        g2 = set(HC.rows_of(mod.genhkl_all(case['cell'], case['lo'], case['hi'], **kw)))
+                        if g2 != gs:
+                            why, cls = 'genhkl_all differs between RNG states', 'rng'
+                except Exception as e:
+                    why, cls = 'genhkl_all raised %s: %s' % (type(e).__name__, e), 'exc'
+                ctx.count(('all', no, ch, k, mod.__name__, form), hist='search:%s:%s%s' % (s.crystal_system, 'oblique' if HC.oblique(case) else 'orthogonal metric', (':' + case['kind']) if case.get('kind') else ''),
+                          sample={'sgno': no, 'cell_choice': ch, 'cell': case['cell'], 'sintlmin': case['lo'], 'sintlmax': case['hi'], 'expected': len(exp)} if no == 62 else None)
+                ctx.dist['call form:' + ('number' if 'sgno' in kw else ('name' if len(kw) == 1 else 'name+cell_choice'))] = ctx.dist.get('call form:' + ('number' if 'sgno' in kw else ('name' if len(kw) == 1 else 'name+cell_choice')), 0) + 1
+                if why and (cls, s.crystal_system if cls == 'F6' else no) not in seen:
+                    seen.add((cls, s.crystal_system if cls == 'F6' else no))
+                    fails.append({'sgno': no, 'cell_choice': ch, 'name': s.name, 'cell': case['cell'], 'sintlmin': case['lo'], 'sintlmax': case['hi'],
+                                  'module': mod.__name__, 'class': cls, 'what': why, 'replay': '%s.genhkl_all(%r, %r, %r, %s): %s' % (
+                                      mod.__name__, case['cell'], case['lo'], case['hi'], form, why)})
         # sintlmin exclusive / sintlmax inclusive at a bound that is the module's own sintl of a traversal point (both modules)
         for kb, (no, s, K, cell, h0) in enumerate(HC.boundary_cases(ctx)):
             for mod in (tools, laue):
